@@ -1,8 +1,9 @@
 //! C03 — phase mismatch `delta_k` and the optimum idler `IdlerBeam::try_new_optimum`
 use crate::common::*;
 use nalgebra::Vector3;
-use spdcalc::dim::ucum::{K, M, RAD, S};
+use spdcalc::dim::ucum::{DEG, K, M, RAD, S};
 use spdcalc::prelude::*;
+use spdcalc::utils::Steps2D;
 use spdcalc::{delta_k, AutoCalcParam, CrystalSetup, PeriodicPoling, Sign, SPDC};
 
 pub const C: f64 = 299_792_458.0;
@@ -147,6 +148,15 @@ pub fn par_tol(k_norm: f64, c_norm: f64) -> f64 {
   let r = k_norm / c_norm;
   1e-9 + 16.0 * f64::EPSILON * r * r
 }
+/// … and the code obtains the idler's ANGLE as asin(sin θ_i): a relative rounding error δ of sin θ_i is an angle error
+/// δ·tan θ_i, so for a closing vector `c` that is nearly perpendicular to the pump (c_z → 0+, the edge of "points
+/// forward"; reached when an optimum poling period cancels c_z for a tilted signal) the rounding part of the bound
+/// grows with tan θ_c = c_⊥ / c_z (a case with tan θ_c = 2.2e6 measured 1.03e-9; for tan θ_c ≤ 1 nothing changes)
+pub fn par_tol_c(k_norm: f64, c: &Vector3<f64>) -> f64 {
+  let r = k_norm / c.norm();
+  let tan = (c.x.hypot(c.y) / c.z.abs()).max(1.0);
+  1e-9 + 16.0 * f64::EPSILON * r * r * tan
+}
 
 /// wave vector of a beam computed from first principles: unit direction from the polar angles, index from
 /// `index_along` for the beam's polarization, magnitude n ω / c
@@ -190,11 +200,139 @@ fn gen_poling(r: &mut Rng) -> PeriodicPoling {
   }
 }
 
+/// Build the signal (or the pump) of a case away from its target and move it there with the public setters.
+/// Every variant ends in the state `Beam::new(pol, phs, ths, ls, waist)` describes (the getters are read back
+/// afterwards, so a setter that rounds differently from the constructor cannot raise an alarm).
+#[allow(clippy::too_many_arguments)]
+fn build_by_setters(r: &mut Rng, pm: PMType, lp: f64, ls: f64, ths: f64, phs: f64, waist: f64, signal: &mut SignalBeam, pump: &mut PumpBeam) -> &'static str {
+  let other = |p: PolarizationType| if p == PolarizationType::Ordinary { PolarizationType::Extraordinary } else { PolarizationType::Ordinary };
+  let phi0 = r.range(0.0, TAU);
+  let th0 = r.range(0.02, 0.3) * if r.coin() { -1.0 } else { 1.0 };
+  let l0 = ls * r.range(0.7, 1.4);
+  let sp = pm.signal_polarization();
+  let mk = |pol, ph: f64, th: f64, l: f64, w: f64| -> SignalBeam { Beam::new(pol, ph * RAD, th * RAD, l * M, w * M).into() };
+  match r.below(15) {
+    14 => {
+      // the conversion Beam -> PumpBeam: whatever it does with the angles of a tilted beam, the clauses are checked
+      // against the pump's direction as the resulting object reports it (kp along `phi()`, `theta_internal()`)
+      let b = Beam::new(pm.pump_polarization(), phi0 * RAD, th0 * RAD, lp * M, waist * M);
+      *pump = if r.coin() { b.into() } else { PumpBeam::from(b) };
+      "pump:new-tilted.into()"
+    }
+    0 => {
+      *signal = mk(sp, phi0, ths, ls, waist);
+      signal.set_phi(phs * RAD);
+      "new+set_phi"
+    }
+    1 => {
+      *signal = mk(sp, phs, th0, ls, waist);
+      signal.set_theta_internal(ths * RAD);
+      "new+set_theta_internal"
+    }
+    2 => {
+      *signal = mk(sp, phi0, th0, ls, waist);
+      signal.set_angles(phs * RAD, ths * RAD);
+      "new+set_angles"
+    }
+    3 => {
+      *signal = mk(sp, phi0, th0, ls, waist);
+      signal.set_phi(phs * RAD);
+      signal.set_theta_internal(ths * RAD);
+      "new+set_phi+set_theta_internal"
+    }
+    4 => {
+      *signal = mk(sp, phi0, th0, ls, waist);
+      signal.set_theta_internal(ths * RAD);
+      signal.set_phi(phs * RAD);
+      "new+set_theta_internal+set_phi"
+    }
+    5 => {
+      // a collinear beam that is tilted first and turned afterwards
+      *signal = mk(sp, phi0, 0.0, ls, waist);
+      signal.set_theta_internal(ths * RAD).set_phi(phs * RAD);
+      "new-collinear+set_theta_internal+set_phi"
+    }
+    6 => {
+      *signal = mk(sp, phs, ths, l0, waist);
+      signal.set_vacuum_wavelength(ls * M);
+      "new+set_vacuum_wavelength"
+    }
+    7 => {
+      *signal = mk(sp, phs, ths, l0, waist);
+      signal.set_frequency(spdcalc::utils::vacuum_wavelength_to_frequency(ls * M));
+      "new+set_frequency"
+    }
+    8 => {
+      *signal = mk(other(sp), phs, ths, ls, waist);
+      signal.set_polarization(sp);
+      "new+set_polarization"
+    }
+    9 => {
+      *signal = Beam::new(other(sp), phs * RAD, ths * RAD, ls * M, waist * M).with_polarization(sp).into();
+      "new+with_polarization"
+    }
+    10 => {
+      *signal = mk(sp, phs, ths, ls, waist * r.range(0.3, 3.0));
+      signal.set_waist(waist * M);
+      "new+set_waist"
+    }
+    11 => {
+      // everything at once, azimuth last
+      *signal = mk(other(sp), phi0, th0, l0, waist * 2.0);
+      signal.set_polarization(sp).set_waist(waist * M).set_vacuum_wavelength(ls * M).set_theta_internal(ths * RAD).set_phi(phs * RAD);
+      "new+set_all"
+    }
+    12 => {
+      let pp = pm.pump_polarization();
+      *pump = Beam::new(other(pp), 0. * RAD, 0. * RAD, lp * r.range(0.8, 1.2) * M, waist * M).into();
+      pump.set_polarization(pp).set_vacuum_wavelength(lp * M);
+      "pump:new+set_polarization+set_vacuum_wavelength"
+    }
+    _ => {
+      // a pump that was tilted and turned, then brought back onto the axis
+      *pump = Beam::new(pm.pump_polarization(), phi0 * RAD, th0 * RAD, lp * M, waist * M).into();
+      pump.set_phi(0. * RAD).set_theta_internal(0. * RAD).set_frequency(spdcalc::utils::vacuum_wavelength_to_frequency(lp * M));
+      "pump:new-tilted+set_phi+set_theta_internal+set_frequency"
+    }
+  }
+}
+
+/// K line `dk_from_angles`: the mismatch reported by the real code against the model's Δk for beams whose directions
+/// are `direction_from_polar` of the ANGLES the getters report (indices and frequencies passed in, as for `delta_k`)
+#[allow(clippy::too_many_arguments)]
+fn k_dk_from_angles(ctx: &mut Ctx, cs: &CrystalSetup, signal: &SignalBeam, idler: &IdlerBeam, pump: &PumpBeam, pp: &PeriodicPoling, ws: f64, wi: f64) {
+  let nsw = *signal.refractive_index(ws * RAD / S, cs);
+  let niw = *idler.refractive_index(wi * RAD / S, cs);
+  let np = *pump.refractive_index(pump.frequency(), cs);
+  let dk = guard(|| raw_vec(delta_k(ws * RAD / S, wi * RAD / S, signal, idler, pump, cs, pp)));
+  let args = format!(
+    "{} {} {} {} {} {} {} {} {} {} {} {} {}",
+    fl(ph_of(signal)),
+    fl(th_of(signal)),
+    fl(ph_of(idler)),
+    fl(th_of(idler)),
+    fl(ph_of(pump)),
+    fl(th_of(pump)),
+    fl(nsw),
+    fl(niw),
+    fl(np),
+    fl(ws),
+    fl(wi),
+    fl(w_of(pump)),
+    pp_wire(pp)
+  );
+  ctx.k("dk_from_angles", &args, &dk.map(|v| v3(&v)).unwrap_or("PANIC".into()));
+}
+
 /// one case: K lines for `opt_idler`/`delta_k`, and (when `stmt`) the statement's S predicates
 fn case(ctx: &mut Ctx, spdc0: &SPDC, cs: &CrystalSetup, lp: f64, ls: f64, ths: f64, phs: f64, pp: &PeriodicPoling, stmt: bool) {
   let pm = cs.pm_type;
   let waist = ctx.rng.log_range(20e-6, 2e-3);
   let (mut signal, mut pump) = mk_beams(pm, lp, ls, ths, phs, waist);
+  // a third of the signals (and some pumps) are built somewhere else and then MOVED to the same target by the public
+  // setters: the statement is about the beam as it is, whatever calls produced it
+  let built = if ctx.rng.below(3) == 0 { build_by_setters(&mut ctx.rng, pm, lp, ls, ths, phs, waist, &mut signal, &mut pump) } else { "new" };
+  ctx.count(&format!("idler/signal-built-by/{}", built));
   // hand-built beams whose polarizations need not agree with the phase-matching label
   if ctx.rng.below(4) == 0 {
     let pols = [PolarizationType::Ordinary, PolarizationType::Extraordinary];
@@ -206,7 +344,7 @@ fn case(ctx: &mut Ctx, spdc0: &SPDC, cs: &CrystalSetup, lp: f64, ls: f64, ths: f
   let lpr = l_of(&pump);
   let ns = *signal.refractive_index(signal.frequency(), cs);
   let np = *pump.refractive_index(pump.frequency(), cs);
-  let what = describe(cs, lp, ls, ths, phs, pp);
+  let what = format!("{} built={}", describe(cs, lp, ls, ths, phs, pp), built);
   let r = guard(|| IdlerBeam::try_new_optimum(&signal, &pump, cs, pp));
   let args = format!(
     "{} {} {} {} {} {} {} {} {} {} {}",
@@ -289,6 +427,7 @@ fn case(ctx: &mut Ctx, spdc0: &SPDC, cs: &CrystalSetup, lp: f64, ls: f64, ths: f
     );
     ctx.k("delta_k", &args, &dk.map(|v| v3(&v)).unwrap_or("PANIC".into()));
   }
+  k_dk_from_angles(ctx, cs, &signal, &idler, &pump, pp, w_of(&signal), w_of(&idler));
   ctx.k(
     "dk_wavevector",
     &format!("{} {} {}", v3(&dir_of(&signal)), fl(ns), fl(w_of(&signal))),
@@ -310,7 +449,7 @@ fn case(ctx: &mut Ctx, spdc0: &SPDC, cs: &CrystalSetup, lp: f64, ls: f64, ths: f
     PeriodicPoling::On { period, sign, .. } => TAU / (*(*period / M) * if *sign == Sign::NEGATIVE { -1.0 } else { 1.0 }),
   };
   let zhat = Vector3::new(0., 0., 1.);
-  let kp = indep_k(cs, 0., 0., pol_p, wp);
+  let kp = indep_k(cs, th_of(&pump), ph_of(&pump), pol_p, wp);
   let ks = indep_k(cs, th_of(&signal), ph_of(&signal), pol_s, ws);
   let ki = indep_k(cs, th_of(&idler), ph_of(&idler), idler.polarization(), wi);
   let scale = kp.norm();
@@ -355,7 +494,7 @@ fn case(ctx: &mut Ctx, spdc0: &SPDC, cs: &CrystalSetup, lp: f64, ls: f64, ths: f
   if c.z > 0.0 {
     ctx.count("idler/closing/forward");
     let cross = di.cross(&c).norm();
-    let ok = cross <= par_tol(scale, c.norm()) * c.norm() && di.dot(&c) > 0.0;
+    let ok = cross <= par_tol_c(scale, &c) * c.norm() && di.dot(&c) > 0.0;
     ctx.s("C03.idler", ok, &format!("idler/parallel{}", neg), &format!("{} cross_over_norm={:e} theta_i={:e}", what, cross / c.norm(), th_of(&idler)));
     if th_of(&signal) == 0.0 {
       ctx.count("idler/collinear");
@@ -363,7 +502,7 @@ fn case(ctx: &mut Ctx, spdc0: &SPDC, cs: &CrystalSetup, lp: f64, ls: f64, ths: f
     }
     // residual mismatch parallel to the idler
     let res = dk.cross(&di).norm();
-    ctx.s("C03.idler", res <= par_tol(scale, c.norm()) * c.norm(), &format!("idler/residual-parallel{}", neg), &format!("{} resid_cross={:e} c={:e}", what, res, c.norm()));
+    ctx.s("C03.idler", res <= par_tol_c(scale, &c) * c.norm(), &format!("idler/residual-parallel{}", neg), &format!("{} resid_cross={:e} c={:e}", what, res, c.norm()));
   } else {
     ctx.count("idler/closing/backward");
   }
@@ -479,19 +618,42 @@ fn idler_wire(i: &IdlerBeam) -> String {
 
 /// ALL clauses of the statement on the setup held by an SPDC object whose idler was just derived through `route`
 fn check_spdc(ctx: &mut Ctx, spdc: &SPDC, route: &str, hist: &str) {
+  check_spdc_ex(ctx, spdc, route, hist, true)
+}
+
+/// `derived == false`: the idler (or the pump) of the object was moved by hand after the derivation, so only the
+/// clause about the reported mismatch (which the statement makes for ANY signal/idler pair) applies
+fn check_spdc_ex(ctx: &mut Ctx, spdc: &SPDC, route: &str, hist: &str, derived: bool) {
   let cs = &spdc.crystal_setup;
   let (signal, pump, idler, pp) = (&spdc.signal, &spdc.pump, &spdc.idler, &spdc.pp);
   let pm = cs.pm_type;
-  let what = format!(
+  let mut what = format!(
     "route={} history={} {}",
     route,
     hist,
     describe(cs, l_of(pump), l_of(signal), th_of(signal), ph_of(signal), pp)
   );
+  if !derived {
+    what.push_str(&format!(
+      " pol_s={} pol_p={} theta_p={:e} phi_p={:e} li={:e} theta_i={:e} phi_i={:e} pol_i={}",
+      pol_name(signal.polarization()),
+      pol_name(pump.polarization()),
+      th_of(pump),
+      ph_of(pump),
+      l_of(idler),
+      th_of(idler),
+      ph_of(idler),
+      pol_name(idler.polarization())
+    ));
+  }
   let sig = |clause: &str| format!("route/{}/{}", route, clause);
   ctx.count(&format!("route/{}", route));
   // K: the idler held by the object is the model's optimum idler for the object's signal/pump/crystal/poling
-  k_opt_idler(ctx, cs, signal, pump, pp, &idler_wire(idler));
+  if derived {
+    k_opt_idler(ctx, cs, signal, pump, pp, &idler_wire(idler));
+  }
+  // K: the mismatch the object reports is the model's Δk along the directions given by the beams' ANGLES
+  k_dk_from_angles(ctx, cs, signal, idler, pump, pp, w_of(signal), w_of(idler));
 
   let (_, _, pol_i) = pol_of(pm);
   let (pol_p, pol_s) = (pump.polarization(), signal.polarization());
@@ -501,13 +663,13 @@ fn check_spdc(ctx: &mut Ctx, spdc: &SPDC, route: &str, hist: &str) {
     PeriodicPoling::On { period, sign, .. } => TAU / (*(*period / M) * if *sign == Sign::NEGATIVE { -1.0 } else { 1.0 }),
   };
   let zhat = Vector3::new(0., 0., 1.);
-  let kp = indep_k(cs, 0., 0., pol_p, wp);
+  let kp = indep_k(cs, th_of(pump), ph_of(pump), pol_p, wp);
   let ks = indep_k(cs, th_of(signal), ph_of(signal), pol_s, ws);
   let ki = indep_k(cs, th_of(idler), ph_of(idler), idler.polarization(), wi);
   let scale = kp.norm();
   // Δk reported by the object = kp − ks − ki − kΛ ẑ with every k from index_along and the PM table's polarizations
   let dk = raw_vec(spdc.delta_k(ws * RAD / S, wi * RAD / S));
-  record(if route.starts_with("scan") { 3 } else { 25 }, &format!("derived/object/{}", route), cs, signal, pump, idler, pp, ws, wi, dk);
+  record(if route.starts_with("scan") { 3 } else { 25 }, &format!("{}/object/{}", if derived { "derived" } else { "moved" }, route), cs, signal, pump, idler, pp, ws, wi, dk);
   let expect = kp - ks - ki - zhat * k_lambda;
   // a detuned pair as well (the definition holds for every frequency pair)
   {
@@ -530,6 +692,9 @@ fn check_spdc(ctx: &mut Ctx, spdc: &SPDC, route: &str, hist: &str) {
     &sig("dk-definition"),
     &format!("{} got=({:e},{:e},{:e}) want=({:e},{:e},{:e})", what, dk.x, dk.y, dk.z, expect.x, expect.y, expect.z),
   );
+  if !derived {
+    return;
+  }
   let (lsr, lpr, li) = (l_of(signal), l_of(pump), l_of(idler));
   let inv = 1.0 / lpr - 1.0 / lsr;
   ctx.s("C03.idler", (1.0 / li - inv).abs() <= 1e-9 * inv.abs(), &sig("energy"), &format!("{} li={:e}", what, li));
@@ -549,7 +714,7 @@ fn check_spdc(ctx: &mut Ctx, spdc: &SPDC, route: &str, hist: &str) {
     let cross = di.cross(&c).norm();
     ctx.s(
       "C03.idler",
-      cross <= par_tol(scale, c.norm()) * c.norm() && di.dot(&c) > 0.0,
+      cross <= par_tol_c(scale, &c) * c.norm() && di.dot(&c) > 0.0,
       &sig("parallel"),
       &format!("{} cross_over_norm={:e} theta_i={:e}", what, cross / c.norm(), th_of(idler)),
     );
@@ -557,7 +722,7 @@ fn check_spdc(ctx: &mut Ctx, spdc: &SPDC, route: &str, hist: &str) {
       ctx.s("C03.idler", th_of(idler).sin().abs() <= 1e-9 && th_of(idler).cos() > 0.0, &sig("collinear"), &format!("{} theta_i={:e}", what, th_of(idler)));
     }
     let res = dk.cross(&di).norm();
-    ctx.s("C03.idler", res <= par_tol(scale, c.norm()) * c.norm(), &sig("residual-parallel"), &format!("{} resid_cross={:e} c={:e}", what, res, c.norm()));
+    ctx.s("C03.idler", res <= par_tol_c(scale, &c) * c.norm(), &sig("residual-parallel"), &format!("{} resid_cross={:e} c={:e}", what, res, c.norm()));
   }
 }
 
@@ -717,6 +882,472 @@ fn route_session(ctx: &mut Ctx, spdc0: &SPDC, cr: &[CrystalType]) {
         } else {
           ctx.count("route/config-idler-auto/not-ok");
         }
+      }
+    }
+  }
+}
+
+// =====================================================================================================================
+// setter histories: beams that were MOVED after construction (Beam setters, the sweep setter paths of `SPDCIter`, the
+// SPDC-level assign_* / with_* mutators) before the idler / the mismatch is asked for
+// =====================================================================================================================
+
+fn gen_phi(r: &mut Rng) -> f64 {
+  match r.below(6) {
+    0 => *r.pick(&[0.0, std::f64::consts::PI, TAU, -std::f64::consts::PI, 1.5 * std::f64::consts::PI]),
+    1 => r.range(-7.0, 13.0),
+    _ => r.range(0.0, TAU),
+  }
+}
+fn gen_theta(r: &mut Rng, max: f64) -> f64 {
+  match r.below(7) {
+    0 => 0.0,
+    1 => -r.range(0.0, max),
+    2 => r.log_range(1e-9, max),
+    3 => *r.pick(&[max, -max, -0.0]),
+    _ => r.range(0.0, max),
+  }
+}
+fn flip(p: PolarizationType) -> PolarizationType {
+  if p == PolarizationType::Ordinary {
+    PolarizationType::Extraordinary
+  } else {
+    PolarizationType::Ordinary
+  }
+}
+/// a signal wavelength for the given pump with pump, signal and idler inside the window
+fn pick_ls(r: &mut Rng, c: &CrystalType, lp: f64) -> Option<f64> {
+  let (lo, hi) = window(c);
+  let ls_min = (lp * hi / (hi - lp)).max(lp * 1.0001);
+  if lp > lo && lp < hi / 2.0 && ls_min * 1.0001 < hi {
+    Some(r.range(ls_min * 1.0001, hi * 0.9999))
+  } else {
+    None
+  }
+}
+/// a pump wavelength for the given signal with pump, signal and idler inside the window
+fn pick_lp(r: &mut Rng, c: &CrystalType, ls: f64) -> Option<f64> {
+  let (lo, hi) = window(c);
+  let lp_max = (ls * hi / (ls + hi)).min(ls / 1.0001);
+  if lp_max > lo * 1.0002 {
+    Some(r.range(lo * 1.0001, lp_max * 0.9999))
+  } else {
+    None
+  }
+}
+/// the crate's sweep machinery on a 1×1 grid: both setters applied once to a clone of `spdc`
+fn sweep_apply(spdc: &SPDC, p1: &str, v1: f64, p2: &str, v2: f64) -> Option<SPDC> {
+  guard(|| SPDCIter::try_new(spdc.clone(), p1, p2, Steps2D((v1, v1, 1), (v2, v2, 1))).ok().and_then(|it| it.into_iter().next())).flatten()
+}
+/// apply sweep path `path` (value `v`) together with a second path that does not enter C03 (or `other`), in random order
+fn sweep_with_neutral(r: &mut Rng, spdc: &mut SPDC, path: &str, v: f64, other: Option<(&str, f64)>) -> Option<String> {
+  let (p2, v2) = match other {
+    Some(o) => o,
+    None => match r.below(5) {
+      0 => ("deff_pm_per_volt", r.range(0.5, 5.0)),
+      1 => ("pump.average_power_mw", r.range(1.0, 10.0)),
+      2 => ("pump.bandwidth_nm", r.range(1.0, 10.0)),
+      3 => ("signal.waist_position_um", -r.range(0.0, 1000.0)),
+      _ => ("idler.waist_position_um", -r.range(0.0, 1000.0)),
+    },
+  };
+  let first = r.coin();
+  let out = if first { sweep_apply(spdc, path, v, p2, v2) } else { sweep_apply(spdc, p2, v2, path, v) }?;
+  *spdc = out;
+  Some(if first { format!("sweep[{}={:e},{}={:e}]", path, v, p2, v2) } else { format!("sweep[{}={:e},{}={:e}]", p2, v2, path, v) })
+}
+
+const N_PRE: usize = 36;
+/// one public mutator on the signal / pump / crystal / poling side of the object: `(route name, history token)`
+fn mutate_pre(ctx: &mut Ctx, spdc: &mut SPDC, crystal: &CrystalType, which: usize) -> Option<(&'static str, String)> {
+  let r = &mut ctx.rng;
+  let (ls, lp) = (l_of(&spdc.signal), l_of(&spdc.pump));
+  let tok = |name: &'static str, v: String| Some((name, format!("{}({})", name, v)));
+  match which {
+    0 => {
+      let v = gen_phi(r);
+      spdc.signal.set_phi(v * RAD);
+      tok("signal.set_phi", format!("{:e}", v))
+    }
+    1 => {
+      let v = gen_theta(r, 0.3);
+      spdc.signal.set_theta_internal(v * RAD);
+      tok("signal.set_theta_internal", format!("{:e}", v))
+    }
+    2 => {
+      let v = if r.below(6) == 0 { 0.0 } else { r.range(-0.3, 0.3) };
+      let cs = spdc.crystal_setup.clone();
+      spdc.signal.set_theta_external(v * RAD, &cs);
+      tok("signal.set_theta_external", format!("{:e}", v))
+    }
+    3 => {
+      let (a, b) = (gen_phi(r), gen_theta(r, 0.3));
+      spdc.signal.set_angles(a * RAD, b * RAD);
+      tok("signal.set_angles", format!("{:e},{:e}", a, b))
+    }
+    4 => {
+      let v = pick_ls(r, crystal, lp)?;
+      spdc.signal.set_vacuum_wavelength(v * M);
+      tok("signal.set_vacuum_wavelength", format!("{:e}", v))
+    }
+    5 => {
+      let v = TAU * C / pick_ls(r, crystal, lp)?;
+      spdc.signal.set_frequency(v * RAD / S);
+      tok("signal.set_frequency", format!("{:e}", v))
+    }
+    6 => {
+      let p = flip(spdc.signal.polarization());
+      spdc.signal.set_polarization(p);
+      tok("signal.set_polarization", pol_name(p).to_string())
+    }
+    7 => {
+      let p = flip(spdc.signal.polarization());
+      spdc.signal = spdc.signal.clone().as_beam().with_polarization(p).into();
+      tok("signal.with_polarization", pol_name(p).to_string())
+    }
+    8 => {
+      // (the idler's waist is moved along: assign/with_optimum_idler keep the idler's own waist by design)
+      let v = r.log_range(20e-6, 2e-3);
+      spdc.signal.set_waist(v * M);
+      spdc.idler.set_waist(v * M);
+      tok("signal.set_waist", format!("{:e}", v))
+    }
+    9 => {
+      let v = pick_lp(r, crystal, ls)?;
+      spdc.pump.set_vacuum_wavelength(v * M);
+      tok("pump.set_vacuum_wavelength", format!("{:e}", v))
+    }
+    10 => {
+      let v = TAU * C / pick_lp(r, crystal, ls)?;
+      spdc.pump.set_frequency(v * RAD / S);
+      tok("pump.set_frequency", format!("{:e}", v))
+    }
+    11 => {
+      let p = flip(spdc.pump.polarization());
+      spdc.pump.set_polarization(p);
+      tok("pump.set_polarization", pol_name(p).to_string())
+    }
+    12 => {
+      let v = r.log_range(20e-6, 2e-3);
+      spdc.pump.set_waist(v * M);
+      tok("pump.set_waist", format!("{:e}", v))
+    }
+    13 => {
+      let v = gen_phi(r).to_degrees();
+      sweep_with_neutral(r, spdc, "signal.phi_deg", v, None).map(|t| ("sweep:signal.phi_deg", t))
+    }
+    14 => {
+      let v = gen_theta(r, 0.3).to_degrees();
+      sweep_with_neutral(r, spdc, "signal.theta_deg", v, None).map(|t| ("sweep:signal.theta_deg", t))
+    }
+    15 => {
+      let v = r.range(-0.3, 0.3).to_degrees();
+      sweep_with_neutral(r, spdc, "signal.theta_external_deg", v, None).map(|t| ("sweep:signal.theta_external_deg", t))
+    }
+    16 => {
+      let v = C / pick_ls(r, crystal, lp)? / 1e12;
+      sweep_with_neutral(r, spdc, "signal.frequency_thz", v, None).map(|t| ("sweep:signal.frequency_thz", t))
+    }
+    17 => {
+      let v = pick_ls(r, crystal, lp)? * 1e9;
+      sweep_with_neutral(r, spdc, "signal.wavelength_nm", v, None).map(|t| ("sweep:signal.wavelength_nm", t))
+    }
+    18 => {
+      let v = r.log_range(20.0, 2000.0);
+      sweep_with_neutral(r, spdc, "signal.waist_um", v, Some(("idler.waist_um", v))).map(|t| ("sweep:signal.waist_um", t))
+    }
+    19 => {
+      let v = C / pick_lp(r, crystal, ls)? / 1e12;
+      sweep_with_neutral(r, spdc, "pump.frequency_thz", v, None).map(|t| ("sweep:pump.frequency_thz", t))
+    }
+    20 => {
+      let v = pick_lp(r, crystal, ls)? * 1e9;
+      sweep_with_neutral(r, spdc, "pump.wavelength_nm", v, None).map(|t| ("sweep:pump.wavelength_nm", t))
+    }
+    21 => {
+      let v = r.log_range(20.0, 2000.0);
+      sweep_with_neutral(r, spdc, "pump.waist_um", v, None).map(|t| ("sweep:pump.waist_um", t))
+    }
+    22 => {
+      let v = r.range(0.0, 360.0);
+      sweep_with_neutral(r, spdc, "crystal.phi_deg", v, None).map(|t| ("sweep:crystal.phi_deg", t))
+    }
+    23 => {
+      let v = r.range(0.0, 90.0);
+      sweep_with_neutral(r, spdc, "crystal.theta_deg", v, None).map(|t| ("sweep:crystal.theta_deg", t))
+    }
+    24 => {
+      let v = r.range(1000.0, 30000.0);
+      sweep_with_neutral(r, spdc, "crystal.length_um", v, None).map(|t| ("sweep:crystal.length_um", t))
+    }
+    25 => {
+      let v = r.range(0.0, 100.0);
+      sweep_with_neutral(r, spdc, "crystal.temperature_c", v, None).map(|t| ("sweep:crystal.temperature_c", t))
+    }
+    26 => {
+      let v = r.log_range(0.3, 1000.0);
+      sweep_with_neutral(r, spdc, "periodic_poling.poling_period_um", v, None).map(|t| ("sweep:periodic_poling.poling_period_um", t))
+    }
+    27 => {
+      let v = r.log_range(0.3e-6, 1e-3) * if r.coin() { -1.0 } else { 1.0 };
+      guard(|| {
+        spdc.assign_poling_period(v * M);
+      })?;
+      tok("assign_poling_period", format!("{:e}", v))
+    }
+    28 => {
+      let v = r.log_range(0.3e-6, 1e-3) * if r.coin() { -1.0 } else { 1.0 };
+      *spdc = guard(|| spdc.clone().with_poling_period(v * M))?;
+      tok("with_poling_period", format!("{:e}", v))
+    }
+    29 => {
+      guard(|| {
+        spdc.assign_optimum_crystal_theta();
+      })?;
+      tok("assign_optimum_crystal_theta", String::new())
+    }
+    30 => {
+      *spdc = guard(|| spdc.clone().with_optimum_crystal_theta())?;
+      tok("with_optimum_crystal_theta", String::new())
+    }
+    31 => {
+      let mut s2 = spdc.clone();
+      guard(|| s2.assign_optimum_periodic_poling().map(|_| ()))?.ok()?;
+      *spdc = s2;
+      tok("assign_optimum_periodic_poling", String::new())
+    }
+    32 => {
+      *spdc = guard(|| spdc.clone().with_optimum_periodic_poling())?.ok()?;
+      tok("with_optimum_periodic_poling", String::new())
+    }
+    33 => {
+      // the old (derived) idler becomes the signal; only when it is a beam of the statement's domain
+      if !(th_of(&spdc.idler).abs() <= 0.3) {
+        return None;
+      }
+      *spdc = spdc.clone().with_swapped_signal_idler();
+      tok("with_swapped_signal_idler", String::new())
+    }
+    34 => {
+      *spdc = guard(|| spdc.clone().with_optimal_waist_positions())?;
+      tok("with_optimal_waist_positions", String::new())
+    }
+    _ => {
+      guard(|| {
+        spdc.assign_optimal_waist_positions();
+      })?;
+      tok("assign_optimal_waist_positions", String::new())
+    }
+  }
+}
+
+const N_POST: usize = 15;
+/// one public mutator on the IDLER of the object (or a tilt of the pump): afterwards only the mismatch clause applies
+fn mutate_post(ctx: &mut Ctx, spdc: &mut SPDC, crystal: &CrystalType, which: usize) -> Option<(&'static str, String)> {
+  let r = &mut ctx.rng;
+  let (lo, hi) = window(crystal);
+  let tok = |name: &'static str, v: String| Some((name, format!("{}({})", name, v)));
+  match which {
+    0 => {
+      let v = gen_phi(r);
+      spdc.idler.set_phi(v * RAD);
+      tok("idler.set_phi", format!("{:e}", v))
+    }
+    1 => {
+      let v = gen_theta(r, 0.3);
+      spdc.idler.set_theta_internal(v * RAD);
+      tok("idler.set_theta_internal", format!("{:e}", v))
+    }
+    2 => {
+      let v = r.range(-0.3, 0.3);
+      let cs = spdc.crystal_setup.clone();
+      spdc.idler.set_theta_external(v * RAD, &cs);
+      tok("idler.set_theta_external", format!("{:e}", v))
+    }
+    3 => {
+      let (a, b) = (gen_phi(r), gen_theta(r, 0.3));
+      spdc.idler.set_angles(a * RAD, b * RAD);
+      tok("idler.set_angles", format!("{:e},{:e}", a, b))
+    }
+    4 => {
+      let v = r.range(lo * 1.0001, hi * 0.9999);
+      spdc.idler.set_vacuum_wavelength(v * M);
+      tok("idler.set_vacuum_wavelength", format!("{:e}", v))
+    }
+    5 => {
+      let v = TAU * C / r.range(lo * 1.0001, hi * 0.9999);
+      spdc.idler.set_frequency(v * RAD / S);
+      tok("idler.set_frequency", format!("{:e}", v))
+    }
+    6 => {
+      let p = flip(spdc.idler.polarization());
+      spdc.idler.set_polarization(p);
+      tok("idler.set_polarization", pol_name(p).to_string())
+    }
+    7 => {
+      let v = gen_phi(r).to_degrees();
+      sweep_with_neutral(r, spdc, "idler.phi_deg", v, None).map(|t| ("sweep:idler.phi_deg", t))
+    }
+    8 => {
+      let v = gen_theta(r, 0.3).to_degrees();
+      sweep_with_neutral(r, spdc, "idler.theta_deg", v, None).map(|t| ("sweep:idler.theta_deg", t))
+    }
+    9 => {
+      let v = r.range(-0.3, 0.3).to_degrees();
+      sweep_with_neutral(r, spdc, "idler.theta_external_deg", v, None).map(|t| ("sweep:idler.theta_external_deg", t))
+    }
+    10 => {
+      let v = C / r.range(lo * 1.0001, hi * 0.9999) / 1e12;
+      sweep_with_neutral(r, spdc, "idler.frequency_thz", v, None).map(|t| ("sweep:idler.frequency_thz", t))
+    }
+    11 => {
+      let v = r.range(lo * 1.0001, hi * 0.9999) * 1e9;
+      sweep_with_neutral(r, spdc, "idler.wavelength_nm", v, None).map(|t| ("sweep:idler.wavelength_nm", t))
+    }
+    12 => {
+      let v = gen_theta(r, 0.1);
+      spdc.pump.set_theta_internal(v * RAD);
+      tok("pump.set_theta_internal", format!("{:e}", v))
+    }
+    13 => {
+      let v = gen_phi(r);
+      spdc.pump.set_phi(v * RAD);
+      tok("pump.set_phi", format!("{:e}", v))
+    }
+    _ => {
+      let (a, b) = (gen_phi(r), gen_theta(r, 0.1));
+      spdc.pump.set_angles(a * RAD, b * RAD);
+      tok("pump.set_angles", format!("{:e},{:e}", a, b))
+    }
+  }
+}
+
+/// the statement's wavelength domain: pump, signal and the idler that energy conservation dictates inside the window
+/// (e.g. a swap of signal and idler after the pump was moved can leave it)
+fn wavelengths_in_window(spdc: &SPDC, c: &CrystalType) -> bool {
+  let (lo, hi) = window(c);
+  let (ls, lp) = (l_of(&spdc.signal), l_of(&spdc.pump));
+  if !(ls > lp * 1.00005) {
+    return false;
+  }
+  let li = ls * lp / (ls - lp);
+  [ls, lp, li].iter().all(|l| *l >= lo && *l <= hi)
+}
+
+fn state_is_finite(spdc: &SPDC) -> bool {
+  let pp_ok = match &spdc.pp {
+    PeriodicPoling::Off => true,
+    PeriodicPoling::On { period, .. } => (*(*period / M)).is_finite() && *(*period / M) > 0.0,
+  };
+  pp_ok
+    && [th_of(&spdc.signal), ph_of(&spdc.signal), th_of(&spdc.idler), ph_of(&spdc.idler), th_of(&spdc.pump), ph_of(&spdc.pump)].iter().all(|x| x.is_finite())
+    && (*(spdc.crystal_setup.theta / RAD)).is_finite()
+    && (*(spdc.crystal_setup.phi / RAD)).is_finite()
+}
+
+/// one session on ONE SPDC object: 1–3 public mutators, the idler re-derived, ALL clauses (`route/after-<last
+/// mutator>/<clause>`); then, on a copy, 1–3 mutators of the idler / a tilt of the pump and the mismatch clause alone
+fn setter_session(ctx: &mut Ctx, spdc0: &SPDC, cr: &[CrystalType]) {
+  let crystal = ctx.rng.pick(cr).clone();
+  let (lp0, ls0) = gen_wavelengths(&mut ctx.rng, &crystal);
+  let pm0 = *ctx.rng.pick(&PMS);
+  let mut spdc = spdc0.clone();
+  spdc.crystal_setup = mk_setup(crystal.clone(), pm0, ctx.rng.range(0.0, std::f64::consts::FRAC_PI_2), ctx.rng.range(0.0, TAU), ctx.rng.range(1e-3, 30e-3), ctx.rng.range(0.0, 100.0), false);
+  let th0 = gen_theta(&mut ctx.rng, 0.3);
+  let (sg, pu) = mk_beams(pm0, lp0, ls0, th0, ctx.rng.range(0.0, TAU), 100e-6);
+  spdc.signal = sg;
+  spdc.pump = pu;
+  spdc.pp = match ctx.rng.below(3) {
+    0 => PeriodicPoling::Off,
+    _ => pp_on(ctx.rng.log_range(0.3e-6, 1e-3), ctx.rng.coin()),
+  };
+  match IdlerBeam::try_new_optimum(&spdc.signal, &spdc.pump, &spdc.crystal_setup, &spdc.pp) {
+    Ok(i) => spdc.idler = i,
+    Err(_) => return,
+  }
+  let mut hist = format!("start:{}:{}", crystal, pm0);
+  for _ in 0..ctx.rng.between(2, 5) {
+    // ---- 1–3 mutators of the signal / pump / crystal / poling side
+    let mut last = "";
+    for _ in 0..ctx.rng.between(1, 3) {
+      let which = ctx.rng.below(N_PRE);
+      let keep = spdc.clone();
+      match mutate_pre(ctx, &mut spdc, &crystal, which) {
+        Some((name, token)) if state_is_finite(&spdc) && wavelengths_in_window(&spdc, &crystal) => {
+          last = name;
+          hist.push('>');
+          hist.push_str(&token);
+        }
+        _ => {
+          spdc = keep;
+          ctx.count(&format!("setters/not-applied/{}", which));
+        }
+      }
+    }
+    if last.is_empty() {
+      continue;
+    }
+    // ---- the idler re-derived through a route that reads the object as it is
+    let (rname, derived) = match ctx.rng.below(4) {
+      0 => ("try_new_optimum", guard(|| IdlerBeam::try_new_optimum(&spdc.signal, &spdc.pump, &spdc.crystal_setup, &spdc.pp)).and_then(|x| x.ok()).map(|i| {
+        let mut s2 = spdc.clone();
+        s2.idler = i;
+        s2
+      })),
+      1 => ("optimum_idler", guard(|| spdc.optimum_idler()).and_then(|x| x.ok()).map(|i| {
+        let mut s2 = spdc.clone();
+        s2.idler = i;
+        s2
+      })),
+      2 => ("assign_optimum_idler", guard(|| {
+        let mut s2 = spdc.clone();
+        s2.assign_optimum_idler().map(|_| ()).map(|_| s2)
+      })
+      .and_then(|x| x.ok())),
+      _ => ("with_optimum_idler", guard(|| spdc.clone().with_optimum_idler()).and_then(|x| x.ok())),
+    };
+    let route = format!("after-{}", last);
+    let tail: Vec<&str> = hist.split('>').collect();
+    let short = format!("{}>{}", tail[tail.len().saturating_sub(8)..].join(">"), rname);
+    match derived {
+      Some(s2) => {
+        spdc = s2;
+        hist.push('>');
+        hist.push_str(rname);
+        if !state_is_finite(&spdc) {
+          // (a closing vector that no idler direction can reach: asin of more than 1) — outside the statement
+          ctx.count("setters/idler-angle-not-finite");
+          continue;
+        }
+        check_spdc(ctx, &spdc, &route, &short);
+      }
+      None => {
+        ctx.s("C03.idler", false, &format!("route/{}/unexpected-error", route), &short);
+        continue;
+      }
+    }
+    // ---- on a copy: the idler moved by hand / the pump tilted, then the mismatch clause alone
+    if ctx.rng.coin() {
+      let mut s2 = spdc.clone();
+      let mut last2 = "";
+      let mut h2 = short.clone();
+      for _ in 0..ctx.rng.between(1, 3) {
+        let which = ctx.rng.below(N_POST);
+        let keep = s2.clone();
+        match mutate_post(ctx, &mut s2, &crystal, which) {
+          Some((name, token)) if state_is_finite(&s2) => {
+            last2 = name;
+            h2.push('>');
+            h2.push_str(&token);
+          }
+          _ => {
+            s2 = keep;
+            ctx.count(&format!("setters/not-applied/post-{}", which));
+          }
+        }
+      }
+      if !last2.is_empty() {
+        check_spdc_ex(ctx, &s2, &format!("after-{}", last2), &h2, false);
       }
     }
   }
@@ -944,6 +1575,10 @@ pub fn run(ctx: &mut Ctx) {
   // one-parameter scans on this thread
   for _ in 0..(ctx.n / 40).max(20) {
     scan_session(ctx, &spdc0, &cr);
+  }
+  // setter histories: beams moved after construction (Beam setters, sweep setter paths, SPDC-level mutators)
+  for _ in 0..(ctx.n / 30).max(40) {
+    setter_session(ctx, &spdc0, &cr);
   }
   // JSON configurations with idler auto + (crystal angle auto | poling auto) and a non-collinear signal
   for _ in 0..(ctx.n / 60).max(20) {
